@@ -14,6 +14,8 @@ import (
 	"os"
 	"strconv"
 	"sync"
+	"sync/atomic"
+	"time"
 
 	"pgregory.net/rapid"
 )
@@ -33,6 +35,49 @@ type Recorder struct {
 }
 
 var Rec *Recorder
+
+// Watchdog: an invocation of a scripted property takes micro- to milliseconds; one that is still running after
+// HangAfter has hung inside the library (the properties themselves never loop).  The trace is closed in a
+// well-formed way (hang, scen.end, harness.done) and the process exits, since the stuck goroutine cannot be stopped.
+var (
+	HangAfter   = 90 * time.Second
+	invStarted  atomic.Int64 // unix nanoseconds of the start of the invocation in progress, 0 if none
+	curScenario atomic.Value
+)
+
+func InvStart() { invStarted.Store(time.Now().UnixNano()) }
+func InvStop()  { invStarted.Store(0) }
+
+func StartWatchdog(r *Recorder) {
+	go func() {
+		for {
+			time.Sleep(time.Second)
+			s := invStarted.Load()
+			if s != 0 && time.Since(time.Unix(0, s)) > HangAfter {
+				id, _ := curScenario.Load().(string)
+				r.forceEmit("hang", F{"scenario": id, "seconds": int(time.Since(time.Unix(0, s)).Seconds())})
+				r.forceEmit("scen.end", F{"id": id, "hung": true})
+				r.forceEmit("harness.done", F{"hung": true})
+				_ = r.Close()
+				os.Exit(3)
+			}
+		}
+	}()
+}
+
+// forceEmit records an event regardless of filters and pauses.
+func (r *Recorder) forceEmit(ev string, f F) {
+	r.mu.Lock()
+	defer r.mu.Unlock()
+	r.seq++
+	out := F{"ev": ev, "seq": r.seq}
+	for k, v := range f {
+		out[k] = v
+	}
+	b, _ := json.Marshal(out)
+	r.w.Write(b)
+	r.w.WriteByte('\n')
+}
 
 func OpenRecorder(path string, want []string) (*Recorder, error) {
 	f, err := os.Create(path)
